@@ -454,15 +454,24 @@ mod sync_impl {
     use super::*;
     type SelfTy = SyncC;
     impl Api for SyncC {
+        // every public spelling of an insert is used (chosen by the value id): the `try_` forms
+        // and the panicking shorthands, `insert` and `insert_with_ttl(.., ZERO)`
         fn insert(&self, k: u64, v: Val, cost: i64, ttl: Duration) -> Result<bool, String> {
-            if ttl.is_zero() {
-                self.try_insert(k, v, cost).map_err(|e| e.to_string())
-            } else {
-                self.try_insert_with_ttl(k, v, cost, ttl).map_err(|e| e.to_string())
+            match (ttl.is_zero(), v.id % 4) {
+                (true, 0) => self.try_insert(k, v, cost).map_err(|e| e.to_string()),
+                (true, 1) => Ok(SelfTy::insert(self, k, v, cost)),
+                (true, 2) => self.try_insert_with_ttl(k, v, cost, Duration::ZERO).map_err(|e| e.to_string()),
+                (true, _) => Ok(self.insert_with_ttl(k, v, cost, Duration::ZERO)),
+                (false, 0) | (false, 2) => self.try_insert_with_ttl(k, v, cost, ttl).map_err(|e| e.to_string()),
+                (false, _) => Ok(self.insert_with_ttl(k, v, cost, ttl)),
             }
         }
         fn insert_if_present(&self, k: u64, v: Val, cost: i64) -> Result<bool, String> {
-            self.try_insert_if_present(k, v, cost).map_err(|e| e.to_string())
+            if v.id % 2 == 0 {
+                self.try_insert_if_present(k, v, cost).map_err(|e| e.to_string())
+            } else {
+                Ok(SelfTy::insert_if_present(self, k, v, cost))
+            }
         }
         fn remove(&self, k: u64) -> Result<(), String> {
             self.try_remove(&k).map_err(|e| e.to_string())
@@ -519,14 +528,21 @@ mod async_impl {
     type SelfTy = AsyncC;
     impl Api for AsyncC {
         fn insert(&self, k: u64, v: Val, cost: i64, ttl: Duration) -> Result<bool, String> {
-            if ttl.is_zero() {
-                bo(self.try_insert(k, v, cost)).map_err(|e| e.to_string())
-            } else {
-                bo(self.try_insert_with_ttl(k, v, cost, ttl)).map_err(|e| e.to_string())
+            match (ttl.is_zero(), v.id % 4) {
+                (true, 0) => bo(self.try_insert(k, v, cost)).map_err(|e| e.to_string()),
+                (true, 1) => Ok(bo(SelfTy::insert(self, k, v, cost))),
+                (true, 2) => bo(self.try_insert_with_ttl(k, v, cost, Duration::ZERO)).map_err(|e| e.to_string()),
+                (true, _) => Ok(bo(self.insert_with_ttl(k, v, cost, Duration::ZERO))),
+                (false, 0) | (false, 2) => bo(self.try_insert_with_ttl(k, v, cost, ttl)).map_err(|e| e.to_string()),
+                (false, _) => Ok(bo(self.insert_with_ttl(k, v, cost, ttl))),
             }
         }
         fn insert_if_present(&self, k: u64, v: Val, cost: i64) -> Result<bool, String> {
-            bo(self.try_insert_if_present(k, v, cost)).map_err(|e| e.to_string())
+            if v.id % 2 == 0 {
+                bo(self.try_insert_if_present(k, v, cost)).map_err(|e| e.to_string())
+            } else {
+                Ok(bo(SelfTy::insert_if_present(self, k, v, cost)))
+            }
         }
         fn remove(&self, k: u64) -> Result<(), String> {
             bo(self.try_remove(&k)).map_err(|e| e.to_string())
